@@ -12,14 +12,16 @@ def mc_runs(quick):
 
 
 def scen(quick):
-    return ["--fastload", 250 if quick else 2500]
+    return ["--fastload", 250 if quick else 2500, "--trapdur", 40 if quick else 400]
 
 
 def rule(quick, shards):
     return (f"{shards} shards x {250 if quick else 2500} tapes of 0..4 blocks (data lengths 0,1,2,17,125..129,253..257,300,700; wrong checksums, "
             "truncated tails), one request per block plus 1-2 past the end: flag match/mismatch, LOAD/VERIFY against equal/unequal memory, "
             "DE = 0 / shorter / longer / exact / 0xFFxx, destinations in RAM, screen, across 0xFFFF and into ROM; the host rewinding between requests; two tapes out of three inserted into the machine that used the previous one; fast "
-            "loading switched off and on again at run time around a request on the stopped deck; 48K and 128K (ROM 1 paged)")
+            "loading switched off and on again at run time around a request on the stopped deck; a third of the requests under a debugger with breakpoints inside the ROM routine; "
+            "zero-length blocks; tape assets handing out at most 1 / 7 / 100 / 512 bytes per read; 48K and 128K (ROM 1 paged); "
+            f"plus {40 if quick else 400} pairs of fresh machines serving the same request at the same moment with the data in contended / uncontended RAM (same return time)")
 
 
 def selftest(pid, trace, seed):
